@@ -109,6 +109,27 @@ class ExprMixin:
             return self.fresh(Addr, 'dead')
         raise Unsupported('attribute access on ' + sv.kind)
 
+    def assume_type(self, sv: SV, st: State):
+        """TYPES: a value read from a typed location has its declared type (tag, class tag, allocatedness)"""
+        ty = sv.ty
+        if ty is None:
+            return
+        cid = {'list': CLS_LIST, 'dict': CLS_DICT, 'set': CLS_SET}.get(ty.kind)
+        if ty.kind == 'obj' and ty.cls:
+            cid = class_id(ty.cls)
+        if sv.kind == 'ref':
+            self.note_ref(sv.t, st)
+            if cid is not None:
+                st.assume(st.h.cls(sv.t) == cid)
+        elif sv.kind == 'val' and ty.kind != 'val':
+            st.assume(tag_pred(sv.t, ty))
+            if ty.kind in ('obj', 'list', 'dict', 'set'):
+                a = v_a(sv.t)
+                facts = [a >= 0, a < st.h.alloc]
+                if cid is not None:
+                    facts.append(st.h.cls(a) == cid)
+                st.assume(z3.Implies(is_VRef(sv.t), z3.And(*facts)))
+
     def note_ref(self, a, st: State):
         """instantiated heap-closedness: a reference read from the heap is allocated"""
         st.assume(z3.And(a >= 0, a < st.h.alloc))
@@ -186,8 +207,7 @@ class ExprMixin:
         sv = from_val(v, elem)
         if elem is not None and not elem.opt and elem.kind != 'val':
             st.assume(tag_pred(v, elem))          # typing assumption TYPES (element type of a typed list)
-        if sv.kind == 'ref':
-            self.note_ref(sv.t, st)
+        self.assume_type(sv, st)
         return sv
 
     # ------------------------------------------------------------------ dicts
@@ -341,8 +361,7 @@ class ExprMixin:
         if ty is None:
             raise Unsupported('attribute %s of %s not in schema' % (attr, cls))
         sv = from_sort(st.h.f(attr, a), ty)
-        if sv.kind == 'ref':
-            self.note_ref(sv.t, st)
+        self.assume_type(sv, st)
         return sv
 
     def ev_Subscript(self, e, st):
@@ -414,6 +433,13 @@ class ExprMixin:
         left = self.ev(e.left, st)
         out = []
         for op, rhs in zip(e.ops, e.comparators):
+            if isinstance(op, (ast.In, ast.NotIn)) and isinstance(rhs, (ast.List, ast.Tuple, ast.Set)):
+                # membership in a literal: no allocation, element-wise equality (exact)
+                elts = [self.ev(x, st) for x in rhs.elts]
+                r = z3.Or(*[self.eq(left, y, st) for y in elts]) if elts else z3.BoolVal(False)
+                out.append(r if isinstance(op, ast.In) else z3.Not(r))
+                left = None
+                continue
             right = self.ev(rhs, st)
             out.append(self.compare(op, left, right, st))
             left = right
